@@ -118,8 +118,9 @@ extern "C" int LLVMFuzzerTestOneInput(const uint8_t *data, size_t size)
 	}
 	files_off(I);
 	// clause (4)
-	if (ci.failed && known_state_unnumbered(I)) {
-		g_cnt["skipped_known_unnumbered_solutions_survive_reload"]++;
+	const char *ks = ci.failed ? known_state_after_failure(I) : 0;
+	if (ks) {
+		g_cnt[std::string("skipped_known_") + ks]++;
 		g_I = 0; g_inlib++; delete I; g_inlib--;
 		g_I = new FI;
 		g_fresh = false;
